@@ -7,7 +7,7 @@ ID = "C04"
 OWN = ("path", "point", "extra", "reject", "rowcount")
 
 PATH = ["x_le", "x_vec_ge", "xu_between", "u_between", "t_eq", "xt_le", "pc_le", "vc_ge", "pg_le", "dt_le",
-        "next", "prev", "off2", "offm2", "next_u", "next_pc", "next_pcq", "z_le", "x_vec_mixed"]
+        "next", "prev", "off2", "offm2", "next_u", "next_pc", "next_pcq", "z_le", "x_vec_mixed", "x_vec_mixed_lb"]
 POINT = ["bc0", "bcf", "bc_mixed", "periodic", "bcT", "vg_le", "intq"]
 OFFS = ("next", "prev", "off2", "offm2", "next_u", "next_pc", "next_pcq")
 
